@@ -205,7 +205,7 @@ func fmod(t *rt.Thread, c *rt.GoCont) (rt.Cont, error) {
 	}
 	x, _ := rt.ToNumberValue(c.Arg(0))
 	y, _ := rt.ToNumberValue(c.Arg(1))
-	res, ok, err := rt.Mod(x, y)
+	res, ok, err := truncMod(x, y)
 	if !ok {
 		err = errors.New("expected numeric arguments")
 	}
@@ -213,6 +213,29 @@ func fmod(t *rt.Thread, c *rt.GoCont) (rt.Cont, error) {
 		return nil, err
 	}
 	return c.PushingNext1(t.Runtime, res), nil
+}
+
+// truncMod returns the remainder of the division of x by y that rounds the
+// quotient towards zero (unlike the % operator, which rounds towards minus
+// infinity).  Its results have the same meaning as those of rt.Mod.
+func truncMod(x, y rt.Value) (rt.Value, bool, error) {
+	nx, isIntX := x.TryInt()
+	ny, isIntY := y.TryInt()
+	if isIntX && isIntY {
+		switch ny {
+		case 0:
+			return rt.NilValue, true, errors.New("attempt to perform 'n%0'")
+		case -1:
+			return rt.IntValue(0), true, nil // avoids overflow of minint / -1
+		}
+		return rt.IntValue(nx % ny), true, nil
+	}
+	fx, okx := rt.ToFloat(x)
+	fy, oky := rt.ToFloat(y)
+	if !okx || !oky {
+		return rt.NilValue, false, nil
+	}
+	return rt.FloatValue(math.Mod(fx, fy)), true, nil
 }
 
 func log(t *rt.Thread, c *rt.GoCont) (rt.Cont, error) {
